@@ -289,6 +289,84 @@ def gitAutoCommit (spec : Path → Bool) (g : G) (msg : String) (toBranch : Opti
       | .outside => ⟨g2, .outside⟩
     else ⟨g2, if ok then .ok else .gitError⟩
 
+/-! ### aborts (panics) between the git invocations
+
+  `git_auto_commit` protects the user's staged files against `Err` RESULTS of the git processes (the
+  stash is popped on every exit path).  It has no protection against UNWINDING: if any of the pure
+  Rust computations that run between `git stash push --staged` and `git stash pop --index` panics,
+  the thread unwinds, `unstash_user_staged_files` is never called and the process ends (exit status
+  101).  `PanicSites` names those computations; `gitAutoCommitP` is `gitAutoCommit` with an abort
+  transition at each of them (an abort at a site that the run does not pass has no effect). -/
+
+/-- Which of the pure computations of `git_auto_commit` / `git_commit_xvc_files` panics in a run.
+    Every field is a place between two git invocations. -/
+structure PanicSites where
+  /-- before `git stash push --staged`: `debug!("Using Git")`, building the arguments of
+      `git diff --name-only --cached`, `debug!("Stashing user staged files")` -/
+  beforeStash : Bool
+  /-- after the push, before `git checkout -b`: `debug!("Stashed user staged files")`,
+      `debug!("Checking out branch {branch}")` -/
+  inCheckout : Bool
+  /-- before `git add`: building the argument array (`xvc_dir_str`, the two pathspecs) -/
+  inAdd : Bool
+  /-- after `git add` reported files, before `git commit`: building the commit MESSAGE
+      `format!("Xvc auto-commit after '{xvc_cmd}'")` from the command line -/
+  inMessage : Bool
+  /-- after `git commit` returned (Ok or Err), before `git reset` / before the pop:
+      `debug!("Committing .xvc/ to git")`, `debug!("Error committing")`, `debug!("Unstashing")` -/
+  inAfterCommit : Bool
+  /-- after `git stash pop --index` returned: `debug!("Unstashed user staged files")`, and the
+      caller's `.unwrap()` / `?` on the `Err` that `git_auto_commit` returns -/
+  afterPop : Bool
+  deriving Repr, DecidableEq
+
+/-- `git_commit_xvc_files` with abort transitions: state, the `Ok(())` flag, and `true` when the
+    thread is unwinding (then no further git process runs). -/
+def gitCommitXvcFilesP (s : PanicSites) (spec : Path → Bool) (g : G) (msg : String)
+    (toBranch : Option String) (hookOk : Bool) : G × Bool × Bool :=
+  if s.inCheckout then (g, false, true)
+  else
+    let co : Res G := match toBranch with
+      | some b => checkoutNewBranch g b
+      | none => .ok g
+    match co with
+    | .ok g1 =>
+      if s.inAdd then (g1, false, true)
+      else
+        let (g2, added) := gitAdd spec g1
+        if added = [] then (g2, true, false)
+        else if s.inMessage then (g2, false, true)               -- the message cannot be built
+        else match gitCommit g2 msg hookOk with
+          | .ok g3 => if s.inAfterCommit then (g3, false, true) else (g3, true, false)
+          | _ => if s.inAfterCommit then (g2, false, true) else (gitReset g2, false, false)
+    | _ => (g, false, false)
+
+structure OutP where
+  g : G
+  status : Status
+  /-- the process ended by a panic at this state (exit status 101) -/
+  aborted : Bool
+  deriving Repr
+
+/-- `git_auto_commit` with abort transitions.  When the thread unwinds inside
+    `git_commit_xvc_files` the pop is NOT executed. -/
+def gitAutoCommitP (s : PanicSites) (spec : Path → Bool) (g : G) (msg : String)
+    (toBranch : Option String) (hookOk : Bool) : OutP :=
+  if s.beforeStash then ⟨g, .ok, true⟩
+  else match stashUserStagedFiles g with
+    | .fail => ⟨g, .gitError, false⟩
+    | .outside => ⟨g, .outside, false⟩
+    | .ok (g1, staged) =>
+      match gitCommitXvcFilesP s spec g1 msg toBranch hookOk with
+      | (g2, _, true) => ⟨g2, .ok, true⟩                          -- unwinding: no `stash pop`
+      | (g2, ok, false) =>
+        if staged ≠ [] then
+          match stashPopIndex g2 with
+          | .ok g3 => ⟨g3, if ok then .ok else .gitError, s.afterPop⟩
+          | .fail => ⟨g2, .gitError, s.afterPop⟩
+          | .outside => ⟨g2, .outside, s.afterPop⟩
+        else ⟨g2, if ok then .ok else .gitError, s.afterPop⟩
+
 /-- A variant of `git_auto_commit` that is NOT in the code: `stash_user_staged_files` asks
     `git diff --name-only --relative --cached` (`diffCachedRelative`) whether the user has staged
     files.  With the Xvc root in a subdirectory and all staged changes outside it the answer is
